@@ -61,11 +61,19 @@ def flatten_cfg(ssa):
     return out
 
 
-def model_annotations(ssa_list, primes, vk="-", dk="-"):
-    """ssa_list: SSA dumps; returns list of (fixV, fixD, [annotations])"""
+def model_annotations_counts(ssa_list, primes, vk="-", dk="-"):
+    """ssa_list: SSA dumps; returns list of (fixV, fixD, value passes, degree passes, [annotations])"""
     reqs = ["propagate (prop %s %s %s %s)" % (vlib.sexp(s), vk, dk, p) for s, p in zip(ssa_list, primes)]
     out = []
     for r in vlib.run_model(reqs):
         parts = r.split(" ")
-        out.append((parts[0] == "true", parts[1] == "true", parts[2:]))
+        if len(parts) < 4 or not parts[2].isdigit():
+            out.append((False, False, -1, -1, parts))
+        else:
+            out.append((parts[0] == "true", parts[1] == "true", int(parts[2]), int(parts[3]), parts[4:]))
     return out
+
+
+def model_annotations(ssa_list, primes, vk="-", dk="-"):
+    """ssa_list: SSA dumps; returns list of (fixV, fixD, [annotations])"""
+    return [(a, b, e) for a, b, c, d, e in model_annotations_counts(ssa_list, primes, vk, dk)]
